@@ -33,6 +33,10 @@ def histories(rng, tier):
                     if rng.random() < 0.3:
                         acts += [("measure", m & rng.getrandbits(n + 1)), ("dump",)]
                     hs.append((rng.randrange(1 << 30), acts))
+    # the projection must not depend on the threading model: a third of the histories under num_threads(k),
+    # plus systematic threaded measurements of high qubits on 4-6 qubit registers
+    hs = regcheck.thread_mix(rng, hs, 0.33)
+    hs += regcheck.threaded_core(rng, tier, sample=False)
     return hs
 
 
